@@ -9,6 +9,8 @@ from __future__ import annotations
 
 import copy
 import faulthandler
+import glob
+import signal
 import hashlib
 import json
 import multiprocessing
@@ -21,8 +23,11 @@ import traceback
 from concurrent.futures import ProcessPoolExecutor, as_completed
 
 VERIF = os.path.dirname(os.path.dirname(os.path.abspath(__file__)))
-REPLAYS = os.path.join(VERIF, "replays")
-EVIDENCE = os.path.join(VERIF, "evidence")
+# VERIF_OUT redirects what a run writes (replays, evidence): the seeded-change self-test runs the checks
+# against patched scratch trees and must not overwrite the evidence of /repo itself
+_OUT = os.environ.get("VERIF_OUT") or VERIF
+REPLAYS = os.path.join(_OUT, "replays")
+EVIDENCE = os.path.join(_OUT, "evidence")
 KNOWN = os.path.join(VERIF, "known_findings.json")
 PY = "/venv/bin/python"
 
@@ -101,6 +106,17 @@ def judge(prop, sc):
     return sc, res, vios
 
 
+SCENARIO_WALL_S = int(os.environ.get("VERIF_SCENARIO_WALL", "120"))
+
+
+class ScenarioHang(BaseException):
+    pass
+
+
+def _on_alarm(signum, frame):
+    raise ScenarioHang(f"scenario exceeded {SCENARIO_WALL_S}s of real time (no simulated budget stopped it)")
+
+
 def _worker(args):
     prop, family, seeds, budget_s, want_samples = args
     faulthandler.enable()
@@ -112,7 +128,12 @@ def _worker(args):
         if time.time() - t0 > budget_s:
             break
         try:
-            sc, res, vios = run_one(prop, family, seed)
+            signal.signal(signal.SIGALRM, _on_alarm)
+            signal.alarm(SCENARIO_WALL_S)
+            try:
+                sc, res, vios = run_one(prop, family, seed)
+            finally:
+                signal.alarm(0)
         except BaseException as e:  # harness failure, never a verdict
             out["harness_errors"].append((seed, f"{type(e).__name__}: {e}", traceback.format_exc()[-1200:]))
             continue
@@ -380,11 +401,39 @@ def replay_file(path):
     prop = doc["property"]
     sc = doc["scenario"]
     target = doc["expect"]
+    if doc.get("xproc"):
+        # cross-process determinism: the same scenario in fresh interpreters that differ only in PYTHONHASHSEED
+        outs = [scenario_hashes_fresh(path, hs) for hs in doc["xproc"]["hashseeds"]]
+        bad = [o for o in outs if o[0] is None]
+        if bad:
+            return False, [], [bad[0][1]]
+        from .tracewalk import Violation
+        if len({o[0] for o in outs}) > 1:
+            return True, [Violation(prop, target["rule"], target["signature"], doc.get("message") or "")], []
+        return False, [], []
     _sc, res, vios = judge(prop, copy.deepcopy(sc))
     rs = res if isinstance(res, list) else [res]
     herr = [r.meta["harness_error"] for r in rs if r.meta.get("harness_error")]
     v = _vio_matches(vios, target)
     return v is not None, vios, herr
+
+
+def scenario_hashes(path):
+    with open(path) as f:
+        doc = json.load(f)
+    _sc, res, _v = judge(doc["property"], copy.deepcopy(doc["scenario"]))
+    rs = res if isinstance(res, list) else [res]
+    return "|".join(trace_hash(r.trace) for r in rs if r.scenario.get("hash_mode") != "address")
+
+
+def scenario_hashes_fresh(path, hashseed):
+    env = dict(os.environ)
+    env["PYTHONHASHSEED"] = str(hashseed)
+    env["PYTHONPATH"] = VERIF + ":" + os.environ.get("VERIF_REPO_SRC", "/repo/src")
+    p = subprocess.run([PY, "-m", "xsim.cli", "hashsc", path], cwd=VERIF, env=env, capture_output=True, text=True, timeout=180)
+    if p.returncode != 0:
+        return None, "hashsc failed: " + p.stderr[-600:]
+    return p.stdout.strip().splitlines()[-1], None
 
 
 def verify_replay_fresh(path):
@@ -439,6 +488,30 @@ def determinism_selftest(prop, n=12, fresh=True):
     return True, "ok"
 
 
+def xproc_violation(prop, why):
+    """C16 only: a trace that differs between interpreters differing only in PYTHONHASHSEED *is* the property's
+    violation (every other property's check runs the same harness through the same self-test, which shows the
+    harness itself does not depend on the hash seed).  Returns the replay path, or None if it does not reproduce."""
+    key = why.rsplit(" ", 1)[-1]
+    fam, seed = key.rsplit(":", 1)
+    reg = REGISTRY[prop]
+    gen = dict((n, g) for n, _w, g in reg["families"])[fam]
+    sc = gen(int(seed))
+    sc.setdefault("property", prop)
+    sc.setdefault("family", fam)
+    sc.setdefault("seed", int(seed))
+    vj = {"property": prop, "rule": "trace-depends-on-hash-seed", "signature": {"family": fam},
+          "message": f"{fam} seed {seed}: the recorded trace differs between two fresh interpreters that differ only in PYTHONHASHSEED"}
+    os.makedirs(REPLAYS, exist_ok=True)
+    path = os.path.join(REPLAYS, f"{prop}-trace-depends-on-hash-seed-{fam}-{seed}.json")
+    doc = {"format": 1, "property": prop, "expect": {"property": prop, "rule": vj["rule"], "signature": vj["signature"]},
+           "message": vj["message"], "xproc": {"hashseeds": [0, 12345]}, "scenario": sc}
+    with open(path, "w") as f:
+        json.dump(doc, f, indent=1, default=str)
+    ok, _out = verify_replay_fresh(path)
+    return (path, vj) if ok else (None, vj)
+
+
 def hashes_for(prop, n):
     from . import families  # noqa: F401
     reg = REGISTRY[prop]
@@ -469,11 +542,45 @@ def run_check(prop, tier="quick", seed=1, workers=None, wall=None, max_runs=None
     if max_runs:
         cfg["runs"] = max_runs
     known = load_known()
+    from . import gen as _gen
+    _gen.SCALE["v"] = 1.6 if tier == "thorough" else 1.0
+    os.environ["VERIF_SCALE"] = str(_gen.SCALE["v"])
+    pre_violations = []
     if selftest:
-        ok, why = determinism_selftest(prop, n=8 if tier == "quick" else 24)
-        if not ok:
+        n_self = (8 if tier == "quick" else 24) * int(reg.get("selftest_scale", 1))
+        ok, why = determinism_selftest(prop, n=n_self)
+        if not ok and reg.get("xproc_is_violation") and why.startswith("fresh-interpreter divergence at "):
+            path, vj = xproc_violation(prop, why)
+            if path is None:
+                print(f"HARNESS-ERROR determinism self-test failed and did not reproduce: {why}")
+                return 2
+            pre_violations.append((path, vj))
+        elif not ok:
             print(f"HARNESS-ERROR determinism self-test failed: {why}")
             return 2
+    # regression corpus: replays of defects that were repaired (findings/fixed-<prop>-*.json) must stay fixed
+    corpus = sorted(glob.glob(os.path.join(VERIF, "findings", f"fixed-{prop}-*.json")))
+    corpus_ran = 0
+    for path in corpus:
+        try:
+            signal.signal(signal.SIGALRM, _on_alarm)
+            signal.alarm(SCENARIO_WALL_S)
+            try:
+                rep, _vios, herr = replay_file(path)
+            finally:
+                signal.alarm(0)
+        except BaseException as e_:
+            print(f"HARNESS-ERROR regression replay {path} failed: {type(e_).__name__}: {e_}")
+            return 2
+        if herr:
+            print(f"HARNESS-ERROR regression replay {path}: {herr[0][:600]}")
+            return 2
+        corpus_ran += 1
+        if rep:
+            with open(path) as f_:
+                exp = json.load(f_)["expect"]
+            pre_violations.append((path, {"property": exp["property"], "rule": exp["rule"], "signature": exp["signature"],
+                                          "message": "a repaired defect has returned (regression corpus replay reproduces)"}))
     fams = reg["families"]
     totw = sum(w for _n, w, _g in fams)
     chunks = []
@@ -518,6 +625,12 @@ def run_check(prop, tier="quick", seed=1, workers=None, wall=None, max_runs=None
                 print(f"HARNESS-ERROR worker wait failed: {e}")
                 for f in pending:
                     f.cancel()
+                for p_ in list(getattr(ex, "_processes", {}).values()):
+                    try:
+                        p_.kill()
+                    except Exception:
+                        pass
+                ex.shutdown(wait=False, cancel_futures=True)
                 return 2
             pending.discard(done)
             try:
@@ -552,6 +665,16 @@ def run_check(prop, tier="quick", seed=1, workers=None, wall=None, max_runs=None
     exit_code = 0
     known_seen = {}
     new_violations = 0
+    for path, vj in pre_violations:
+        e = match_known(Violation(vj["property"], vj["rule"], vj["signature"], vj["message"]), known)
+        if e is not None:
+            known_seen[e["id"]] = known_seen.get(e["id"], 0) + 1
+            continue
+        new_violations += 1
+        exit_code = 1
+        print(f"VIOLATION property={prop} replay={path}")
+        print(f"  rule={vj['rule']} signature={json.dumps(vj['signature'], sort_keys=True)}")
+        print(f"  {vj['message']}")
     for key, lst in sorted(groups.items()):
         seed_, vj, sc = lst[0]
         v = Violation(vj["property"], vj["rule"], vj["signature"], vj.get("message", ""))
@@ -583,6 +706,7 @@ def run_check(prop, tier="quick", seed=1, workers=None, wall=None, max_runs=None
     for e in known:
         if e.get("status") == "known" and e.get("property") == prop and e["id"] in known_seen:
             print(f"KNOWN-FINDING: property={prop} {e['what']} (rule={e['rule']}, seen {known_seen[e['id']]}x this run, replay={e.get('replay')})")
+    agg["stats"]["regression_corpus_replays"] = corpus_ran
     write_evidence(prop, tier, seed, reg, agg, wall_s, new_violations, known_seen)
     rate = agg["runs"] / max(wall_s, 1e-9) * 3600
     print(f"{prop} {tier}: scenarios={agg['runs']} executions={agg.get('execs', 0)} distinct_nontrivial={len(agg['hashes'])} vtime_s={agg['vtime_us']/1e6:.1f} "
